@@ -241,13 +241,16 @@ class Prop:
     run_fn = "run14"
     shard = 150
     rule = ("plain trees: every ordered forest with <= 3 nodes x every labeling over 2 strings x data_id in {default, 0, '', 'k', "
-            "hash(data)} that the tree accepts; every forest with <= N nodes (N=5 quick, 6 thorough) x 6 labeling patterns (distinct "
-            "strings; clones in different parents; explicit/falsy ids; value-equal objects, tuples, ints, dataclasses, identity-hashed "
-            "objects) x the 5 serialisation mappers (none / set data in place / wrap / new dict keeping or dropping data_id) with the "
-            "inverse deserialisation mapper; trees under a calc_data_id hook; emptied trees (clear, remove of the last top node); "
-            "seeded random trees up to 30 nodes; hand-written and malformed dict lists.  Every dump goes through json.dumps/json.loads "
-            "before from_dict.  A case is one tree (or one dict list); distinct = distinct desc; non-trivial = >= 3 nodes")
-    exhaustive_note = "all shapes <= 3 nodes x all labelings (2 strings x 5 data_id choices); all shapes <= N x 6 patterns x 5 mappers"
+            "hash(data)} that the tree accepts (quick: 3-node forests with {default, 0, ''} only); every forest with <= N nodes (N=5 "
+            "quick, 6 thorough) x 6 labeling patterns (distinct strings; clones in different parents; explicit/falsy/default-valued ids; "
+            "value-equal objects, tuples, ints, dataclasses; identity-hashed objects; '7' next to 7) x the 5 serialisation mappers (none / "
+            "set data in place / wrap / new dict keeping or dropping data_id) with the inverse deserialisation mapper (quick: 2 of 5 "
+            "mappers for 5-node forests); trees under a calc_data_id hook; typed trees; emptied trees (clear, remove of the last top "
+            "node); seeded random trees (5..18 nodes quick, 5..30 thorough); 16 hand-written and malformed dict lists; Node.from_dict "
+            "into every node of every forest <= 3 (thorough 4) nodes x 3 calc_data_id hooks x 6 item lists.  Every dump goes through "
+            "json.dumps/json.loads before from_dict.  A case is one tree (or one dict list); distinct = distinct desc; non-trivial = >= 3 nodes")
+    exhaustive_note = ("all shapes <= 3 nodes x all labelings (2 strings x 5 data_id choices; quick: 3 choices at 3 nodes); "
+                       "all shapes <= N nodes x 6 patterns x mappers (N=5 quick, 6 thorough)")
     assumptions = [
         "serialisation mappers are functions of the node's data object/ids and the dict passed in; deserialisation mappers read only item['data'] and do not mutate the item",
         "the mapper pair is inverse: deser(ser(x)) == x (hence equal hash) – hypothesis of the round-trip theorem, not an axiom",
@@ -336,7 +339,7 @@ class Prop:
                 if ok(d):
                     yield d
         # (4) random
-        nrand = 60 if tier == "quick" else 600
+        nrand = 60 if tier == "quick" else 400
         for _ in range(nrand):
             n = rng.randint(5, 18 if tier == "quick" else 30)
             shape = H.random_shape(rng, n, deep=rng.choice([0.2, 0.5, 0.85]))
@@ -678,6 +681,11 @@ class Prop:
             return e
         if rebuilt.count != len(R):
             return f"round trip: rebuilt tree counts {rebuilt.count} nodes, {len(R)} reachable"
+        if kind == "none" and strings_only:
+            # the other direction: the dump is canonical, so dumping the rebuilt tree reproduces it
+            again = call(lambda: rebuilt.to_dict_list())
+            if is_err(again) or jv_sx(again) != jv_sx(dump):
+                return "canonical: to_dict_list(from_dict(d)) differs from d"
         if hyp:
             # clone groups = the same partition of positions, as the trees' own indexes see it
             for i in range(len(O)):
